@@ -20,14 +20,7 @@ import math
 from fractions import Fraction
 
 import numpy as np
-from ufl.classes import (
-    Argument,
-    Coefficient,
-    Constant,
-    ConstantValue,
-    GeometricQuantity,
-    SpatialCoordinate,
-)
+from ufl.classes import Argument, Coefficient, Constant, ConstantValue, GeometricQuantity
 
 from .jet import IllConditioned, OArr, QBackend, plain
 from .seval import S
@@ -292,7 +285,7 @@ class DegreeTooHigh(Exception):
     pass
 
 
-def true_degree(e, probes, B, stats=None, memo=None):
+def true_degree(e, probes, B, stats=None, memo=None, side=None):
     """Exact total degree of e (max over its entries and over the probes); -1 for identically zero.
 
     Raises NotPolynomial / UnknownNode (outside the property), DegreeTooHigh, and whatever S raises."""
@@ -306,7 +299,7 @@ def true_degree(e, probes, B, stats=None, memo=None):
         ks = range(-(n // 2), n - (n // 2))
         for k in ks:
             set_point(p.w, p.line.at(k))
-            r = S(e, p.w, B)
+            r = S(e, p.w, B, side=side)
             flat = [_exact(v) for v in plain(r.arr).ravel()]
             if seqs is None:
                 seqs = [[] for _ in flat]
